@@ -174,10 +174,13 @@ func (h *c17Hist) neutralise(feat string) *c17Hist {
 var c17NeutralPaths = []string{"a.txt", "data1", "out.log", "sub/f.txt", "notes", "b-2.cfg", "sub/deep.dat", "A_B.TXT"}
 var c17ExtPaths = []string{"sp ace.txt", " lead", "trail ", "two  blanks", "-dash", "--", "-n", "st*r", "q?m", "br[a]ck", "a*", "semi;colon", "amp&er", "pipe|p", "lt<gt>",
 	"par(en)", "hash#", "#hash", "~tilde", "quo'te", "dq\"uote", "$dollar", "$HOME", "back\\slash", "tick`t", "tab\there", "sub/sp ace", "excl!", "br{a,b}ce", "eq=ual", "per%cent", "$(id)", "new\nline"}
-var c17NeutralContents = []string{"Hello World", "Hello Moon", "abc", "42", "line one", "x", "The quick brown fox", "key=value", "a,b,c", "UPPER lower 123", "dots.and-dashes_ok", "path/like/value"}
+var c17NeutralContents = []string{"Hello World", "Hello Moon", "abc", "42", "line one", "x", "The quick brown fox", "key=value", "a,b,c", "UPPER lower 123", "dots.and-dashes_ok", "path/like/value",
+	// words that end or start something in a shell script when they stand alone on a line
+	"EOF", "END", "EOT", "done", "fi", "exit"}
 var c17ExtContents = []string{"", "", "a\n", "two lines\nend\n", "\n", "one \ntwo", "x\t\ny", "a  \n  b", "end \n", " \n ", " lead", "trail ", "two  blanks", "   ", "tab\there", "\tlt", "a\nb", "a\n\nb", "*", "a*", "?", "[a]", "* *", ";", "a;b", "&", "a&&b", "|", "a|b", "<", ">", "a>b", "(", ")", "(x)",
 	"#", "# not a comment", "~", "~root", "'", "it's", "\"", "say \"hi\"", "$", "$HOME", "${PATH}", "$(id)", "`id`", "`", "\\", "a\\nb", "\\\\", "C:\\dir", "-n", "-e", "-E", "-neE", "-x", "--", "- n", "-n x",
-	"!", "!!", "{a,b}", "%s", "%d%%", "\\t", "$1", "$?", "a=b"}
+	"!", "!!", "{a,b}", "%s", "%d%%", "\\t", "$1", "$?", "a=b",
+	"EOF\nafter", "before\nEOF\nafter", "_EOF_", "__END__", "HEREDOC", ".", "}", "esac\n;;", "done\nfi"}
 
 func c17Gen(rng *gen.Rng, population string) *c17Hist {
 	h := &c17Hist{Population: population}
@@ -221,6 +224,7 @@ func c17Gen(rng *gen.Rng, population string) *c17Hist {
 			paths = append(paths, sib)
 		}
 	}
+	largeUsed := false
 	content := func() string {
 		if extC && rng.Chance(45) {
 			c := rng.Pick(c17ExtContents)
@@ -234,6 +238,13 @@ func c17Gen(rng *gen.Rng, population string) *c17Hist {
 			// a long line (2-6 KB)
 			c = strings.Repeat("The quick brown fox jumps over the lazy dog 0123456789 ", rng.Range(40, 110))
 			c = strings.TrimSpace(c)
+		}
+		if !largeUsed && rng.Chance(2) {
+			// a large value (at most one per history): beyond 64 KiB, beyond the 128 KiB the kernel
+			// allows for ONE argument or environment string, beyond 256 KiB
+			largeUsed = true
+			n := rng.Pick2([]int{70_000, 140_000, 300_000})
+			c = strings.TrimSpace(strings.Repeat("The quick brown fox jumps over the lazy dog 0123456789 ", n/55+1)[:n])
 		}
 		if rng.Chance(30) {
 			c += " " + fmt.Sprint(rng.Intn(1000)) // make values distinguishable
@@ -845,6 +856,28 @@ const bashWatchdog = 60 * time.Second
 // c17Run executes one history and judges it. It returns ("", "") when the
 // model and the real execution agree; otherwise a failure kind and detail.
 func c17Run(r *Run, h *c17Hist, seed uint64, st *c17Stats) (string, string, error) {
+	return c17RunX(r, h, seed, st, nil)
+}
+
+// heredocRe finds the delimiter words of here-documents in an emitted script.
+var heredocRe = regexp.MustCompile("<<-?[ \\t]*\\\\?['\"]?([A-Za-z_][A-Za-z0-9_]*)")
+
+// harvestDelims returns the here-document delimiters the script uses (the harness' own
+// "<<R1>>"-style markers are not here-documents).
+func harvestDelims(script string) []string {
+	seen := map[string]bool{}
+	for _, m := range heredocRe.FindAllStringSubmatchIndex(script, -1) {
+		if strings.HasPrefix(script[m[1]:], ">>") {
+			continue
+		}
+		seen[script[m[2]:m[3]]] = true
+	}
+	return sortedKeys(seen)
+}
+
+// c17RunX is c17Run; with harvest != nil it also collects words of the emitted scripts that
+// delimit something (feedback for a second, derived history).
+func c17RunX(r *Run, h *c17Hist, seed uint64, st *c17Stats, harvest *[]string) (string, string, error) {
 	segs := h.render(seed)
 	// transpile all segments through the worker (real transpiler, MemFS)
 	cases := make([]simrt.Case, len(segs))
@@ -885,6 +918,9 @@ func c17Run(r *Run, h *c17Hist, seed uint64, st *c17Stats) (string, string, erro
 				return "", "", machinery("seed: %v", err)
 			}
 		}
+		if harvest != nil {
+			*harvest = append(*harvest, harvestDelims(string(*res[si].Script))...)
+		}
 		script := filepath.Join(dir, fmt.Sprintf("s%d.sh", si))
 		if err := os.WriteFile(script, []byte(*res[si].Script), 0o755); err != nil {
 			return "", "", machinery("%v", err)
@@ -898,7 +934,7 @@ func c17Run(r *Run, h *c17Hist, seed uint64, st *c17Stats) (string, string, erro
 		cmd := exec.CommandContext(ctx, "/bin/bash", "-c", `ulimit -t 2; exec /bin/bash "$0"`, script)
 		cmd.Dir = priv
 		cmd.Env = []string{"PATH=/usr/local/bin:/usr/bin:/bin", "LC_ALL=C.UTF-8"}
-		cmd.Stdout, cmd.Stderr = &limitedWriter{w: &so, n: 1 << 20}, &limitedWriter{w: &se, n: 4096}
+		cmd.Stdout, cmd.Stderr = &limitedWriter{w: &so, n: 32 << 20}, &limitedWriter{w: &se, n: 4096}
 		cmd.Stdin = strings.NewReader("")
 		cmd.SysProcAttr = &syscall.SysProcAttr{Setpgid: true}
 		cmd.Cancel = func() error { return syscall.Kill(-cmd.Process.Pid, syscall.SIGKILL) }
@@ -1007,7 +1043,16 @@ func checkC17(r *Run) error {
 		tp := time.Now()
 		cfPass := make([]bool, batch)
 		parallel(batch, r.Env.Workers, func(i int) {
-			kinds[i], details[i], errs[i] = c17Run(r, hs[i], seeds[i], nil)
+			var delims []string
+			kinds[i], details[i], errs[i] = c17RunX(r, hs[i], seeds[i], nil, &delims)
+			if errs[i] == nil && kinds[i] == "" && len(delims) > 0 {
+				// feedback from the emitted text: the script delimits embedded data with these words,
+				// so the same history is run again with exactly these words as contents
+				d := hs[i].withContents(delims)
+				if k, det, err := c17Run(r, d, seeds[i], nil); err == nil && k != "" {
+					hs[i], kinds[i], details[i] = d, k, det
+				}
+			}
 			if errs[i] == nil && kinds[i] != "" {
 				// counterfactual for the literal-quoting finding, computed here so that it runs in parallel
 				if lit := hs[i].literalQuoteFeatures(); len(lit) > 0 {
@@ -1111,6 +1156,32 @@ func checkC17(r *Run) error {
 	}, "exploration")
 }
 
+// withContents returns a copy of the history in which the written contents are, in turn, the
+// given words (alone, and as the middle line of three).
+func (h *c17Hist) withContents(words []string) *c17Hist {
+	c := &c17Hist{Population: "extended", Ops: append([]c17Op{}, h.Ops...)}
+	k := 0
+	for i := range c.Ops {
+		op := &c.Ops[i]
+		switch op.Kind {
+		case "write", "writeF", "append", "appendVar":
+			if op.COrigin == "readof" {
+				continue
+			}
+			w := words[k%len(words)]
+			if k/len(words)%2 == 1 {
+				w = "before\n" + w + "\nafter"
+			}
+			op.Content = w
+			if k%3 != 2 {
+				op.COrigin = "literal"
+			}
+			k++
+		}
+	}
+	return c
+}
+
 // c17Report minimises a failing history (ops, then features) and reports it.
 func c17Report(r *Run, h *c17Hist, seed uint64, kind, detail string, cfPass bool) {
 	fails := func(c *c17Hist) (bool, string, string) {
@@ -1151,9 +1222,31 @@ func c17Report(r *Run, h *c17Hist, seed uint64, kind, detail string, cfPass bool
 	budget := 120
 	// candidates must fail in the same way (same failure kind): a subset that fails for
 	// another reason (e.g. a listed finding) must not hijack the minimisation
+	// (a probe of a history with very large contents costs seconds: it is charged accordingly,
+	// so that the minimisation stays bounded — deterministically, not by the wall clock)
+	extra := 240
 	sameKind := func(c *c17Hist) bool {
+		cost := 0
+		for _, op := range c.Ops {
+			cost += len(op.Content) / 4000
+		}
+		budget -= cost
+		extra -= 1 + cost
+		if extra <= 0 {
+			return false
+		}
 		f, k, _ := fails(c)
 		return f && k == kind
+	}
+	// 0. a large content that need not be large
+	for i := range cur.Ops {
+		if len(cur.Ops[i].Content) > 4096 {
+			c := &c17Hist{Population: cur.Population, Ops: append([]c17Op{}, cur.Ops...)}
+			c.Ops[i].Content = c.Ops[i].Content[:40]
+			if sameKind(c) {
+				cur = c
+			}
+		}
 	}
 	ops := ddmin(cur.Ops, func(cand []c17Op) bool {
 		return sameKind(&c17Hist{Population: cur.Population, Ops: cand})
